@@ -1146,3 +1146,49 @@ def check_pure_queries(ctx, classes, rule="PURE-query", exempt: typing.Optional[
   if summary:
     ctx.ok(rule, f"{len(list(classes))} classes|queries leave the object as it is", "src/main/python/ttconv", f"{n} query methods scanned")
   return n
+
+
+# ---------------------------------------------------------------------------------------
+# PAIR-default-end: every cue of the unbounded last interval receives an end
+# ---------------------------------------------------------------------------------------
+
+def check_default_end(ctx, cls, rule="PAIR-default-end"):
+  """The last ISD of a sequence has no end; the writer's finish() gives its cues `begin + 10 s`.
+  One ISD yields one cue only if regions and paragraphs are merged unconditionally; where a merging
+  filter is applied under a configuration test (WebVTT with line_position), the last ISD can yield
+  several cues, and finish() must then treat every cue that has no end - a fix-up of the last list
+  entry alone leaves the others without an end, which the serialiser refuses (ValueError)."""
+  from .match import enclosing_conditions
+  ctx.unit(cls.module)
+  fin = cls.methods.get("finish")
+  if fin is None:
+    raise AnalysisError(f"{cls.qualname}: finish() not found")
+  merged = {}
+  for filt in ("RegionsMergingISDFilter", "ParagraphsMergingISDFilter"):
+    sites = [c for c in ast.walk(cls.node) if isinstance(c, ast.Call) and unparse(c.func).split(".")[-1] == filt]
+    def conditional(c):
+      p = parent(c)
+      while p is not None and p is not cls.node:
+        if isinstance(p, (ast.If, ast.IfExp, ast.For, ast.While)):
+          return True
+        p = parent(p)
+      return False
+    merged[filt] = bool(sites) and not all(conditional(c) for c in sites)
+  merged_always = all(merged.values())
+  ends = [c for c in own_nodes(fin.node) if isinstance(c, ast.Call) and isinstance(c.func, ast.Attribute) and c.func.attr == "set_end"]
+  if not ends:
+    raise AnalysisError(f"{fin.qualname}: no set_end call found")
+
+  def in_loop_over_all(c):
+    p = parent(c)
+    while p is not None and p is not fin.node:
+      if isinstance(p, ast.For) and not any(isinstance(x, ast.Subscript) for x in ast.walk(p.iter)):
+        return True          # a loop over the whole list (not over an index / a slice of it)
+      p = parent(p)
+    return False
+  finish_all = all(in_loop_over_all(c) for c in ends)
+  ctx.check(merged_always or finish_all, rule, f"{fin.qualname}|every cue of the unbounded last interval gets an end", ctx.where(fin.module, ends[0]),
+            "regions and paragraphs are always merged into one cue" if merged_always else "finish() walks every cue that has no end",
+            f"{cls.name} applies {[k for k, v in merged.items() if not v]} only under a configuration test, so the last (unbounded) interval can produce several cues, "
+            "but finish() gives a default end to the last list entry only: the other cues keep end=None and to_string raises ValueError "
+            "(two regions active to the end of the document, WebVTT with line_position)")
